@@ -33,6 +33,10 @@ type MRule struct {
 	Desc *string `json:"desc,omitempty"`
 	Sal  *int64  `json:"sal,omitempty"`
 	U    int64   `json:"u"`
+	// StrLit (optional): a string literal, exactly as written in the document (quotes and escapes included),
+	// assigned to F.MS["<Name>"]; Str is the value it denotes.
+	StrLit string `json:"str_lit,omitempty"`
+	Str    string `json:"str,omitempty"`
 }
 
 // LOp is one operation of a library history.
@@ -82,12 +86,18 @@ func PlainText(rules []MRule) string {
 		if r.Sal != nil {
 			b.WriteString(fmt.Sprintf(" salience %d", *r.Sal))
 		}
-		b.WriteString(fmt.Sprintf(" {\n  when\n    F.B == true\n  then\n    F.M[%q] = %d;\n    Retract(%q);\n}\n\n", r.Name, r.U, r.Name))
+		extra := ""
+		if r.StrLit != "" {
+			extra = fmt.Sprintf("    F.MS[%q] = %s;\n", r.Name, r.StrLit)
+		}
+		b.WriteString(fmt.Sprintf(" {\n  when\n    F.B == true\n  then\n    F.M[%q] = %d;\n%s    Retract(%q);\n}\n\n", r.Name, r.U, extra, r.Name))
 	}
 	return b.String()
 }
 
 type mRule struct {
+	Str  string
+	HasStr bool
 	U    int64
 	Sal  int64
 	Desc string
@@ -218,7 +228,7 @@ func (lr *libRun) fetchExec(where string, inst *ast.KnowledgeBase, mk mKB, adopt
 			continue // an existing alive rule is never up for adoption
 		}
 		if got[n] > 0 {
-			nr := &mRule{U: r.U}
+			nr := &mRule{U: r.U, Str: r.Str, HasStr: r.StrLit != ""}
 			if r.Sal != nil {
 				nr.Sal = *r.Sal
 			}
@@ -271,6 +281,11 @@ func (lr *libRun) fetchExec(where string, inst *ast.KnowledgeBase, mk mKB, adopt
 	for _, n := range want {
 		if f2.M[n] != mk[n].U {
 			lr.violate("wrong-text-version", fmt.Sprintf("%s: rule %s wrote %d, its current text writes %d (an older or foreign text is running)", where, n, f2.M[n], mk[n].U))
+		}
+	}
+	for _, n := range want {
+		if mk[n].HasStr && f2.MS[n] != mk[n].Str {
+			lr.violate("string-literal-value", fmt.Sprintf("%s: rule %s assigned %q, its string literal denotes %q", where, n, f2.MS[n], mk[n].Str))
 		}
 	}
 	for n, u := range f2.M {
@@ -419,7 +434,7 @@ func (lr *libRun) step(oi int, op LOp) {
 						}
 					} else {
 						for _, r := range op.Rules {
-							nr := &mRule{U: r.U, Desc: "No Description"}
+							nr := &mRule{U: r.U, Desc: "No Description", Str: r.Str, HasStr: r.StrLit != ""}
 							if r.Sal != nil {
 								nr.Sal = *r.Sal
 							}
